@@ -84,9 +84,37 @@ def build_harness(ctx, race=False):
 
 
 def run_harness(ctx, args, timeout=3600, binary=None):
+    if getattr(ctx, "race_mode", False) and args and args[0] == "replay-sched":
+        return run_harness_race(ctx, args, timeout)
     p = subprocess.run([binary or ctx.harness] + args, capture_output=True, text=True, timeout=timeout)
     if p.returncode != 0:
         raise ToolError("harness %s failed (%d):\n%s\n%s" % (args, p.returncode, p.stdout[-2000:], p.stderr[-4000:]))
+    return p.stdout
+
+
+def run_harness_race(ctx, args, timeout=3600):
+    """Run the -race build. A report of the race detector is direct evidence from the real code: the
+    recorded SchedRun events are marked race=true so that the trace specification rejects them."""
+    env = dict(os.environ)
+    env["GORACE"] = "halt_on_error=0 exitcode=0"
+    p = subprocess.run([ctx.harness_race] + args + getattr(ctx, "sched_args", []), capture_output=True, text=True,
+                       timeout=timeout, env=env)
+    if p.returncode != 0:
+        raise ToolError("race harness %s failed (%d):\n%s\n%s" % (args, p.returncode, p.stdout[-2000:], p.stderr[-4000:]))
+    if "DATA RACE" in p.stderr:
+        out = args[args.index("-out") + 1]
+        lines = open(out).read().splitlines()
+        with open(out, "w") as f:
+            for ln in lines:
+                ev = json.loads(ln)
+                if ev.get("ev") == "SchedRun":
+                    ev["race"] = True
+                f.write(json.dumps(ev) + "\n")
+        rdir = os.path.join(ROOT, "replays", ctx.prop)
+        os.makedirs(rdir, exist_ok=True)
+        with open(os.path.join(rdir, "race-report.txt"), "w") as f:
+            f.write(p.stderr[:20000])
+        ctx.notes.append("race detector report saved to replays/%s/race-report.txt" % ctx.prop)
     return p.stdout
 
 
@@ -367,11 +395,14 @@ def generate_histories(ctx, module, cfg_text, workers=NCPU, timeout=1500, extra=
     return hist, len(lines)
 
 
-def replay_histories(ctx, histfile, subcmd, module="Trace", chunks=NCPU, limit=None, seed_shuffle=None):
+def replay_histories(ctx, histfile, subcmd, module="Trace", chunks=NCPU, limit=None, seed_shuffle=None, histories=None):
     """Replay TLC-generated behaviours against the real code (harness <subcmd>), validate the
     recorded replays with the trace specification, triage rejections by re-running the history."""
     import random
-    lines = [l for l in open(histfile).read().splitlines() if l.strip()]
+    if histories is not None:
+        lines = list(histories)
+    else:
+        lines = [l for l in open(histfile).read().splitlines() if l.strip()]
     if seed_shuffle is not None:
         random.Random(seed_shuffle).shuffle(lines)
     if limit:
@@ -407,6 +438,8 @@ def replay_histories(ctx, histfile, subcmd, module="Trace", chunks=NCPU, limit=N
                 bad.append((evs[j].get("hist"), r["fails"].get(idx, ["?"])))
     # triage: re-run each offending history alone
     seen = set()
+    unreproduced = []
+    nviol0 = len(ctx.violations)
     for hist, clauses in bad:
         if hist in seen:
             continue
@@ -415,6 +448,11 @@ def replay_histories(ctx, histfile, subcmd, module="Trace", chunks=NCPU, limit=N
             raise ToolError("tool-level rejection %s in history %s" % (clauses, hist))
         ok, cl = replay_one_history(ctx, hist, subcmd, module)
         if ok:
+            if getattr(ctx, "race_mode", False):
+                # a race report cannot be attributed to one schedule of the chunk it occurred in: schedules
+                # that do not reproduce it alone are skipped, but at least one must reproduce (checked below)
+                unreproduced.append(hist)
+                continue
             raise ToolError("rejection in history %s did not reproduce" % hist)
         kf = None
         for f in load_known().get("findings", []):
@@ -430,6 +468,8 @@ def replay_histories(ctx, histfile, subcmd, module="Trace", chunks=NCPU, limit=N
             json.dump({"history": hist, "subcmd": subcmd, "module": module}, fo)
         ctx.violations.append((",".join(cl), path))
         log("VIOLATION property=%s replay=%s clause=%s" % (ctx.prop, path, ",".join(cl)))
+    if unreproduced and len(ctx.violations) == nviol0 and not ctx.known:
+        raise ToolError("none of the %d rejected schedules reproduced alone" % len(unreproduced))
     return len(lines)
 
 
